@@ -16,7 +16,7 @@
 (* every adjoint pass takes exactly sum_k GW(L_k, min(B+1, L_k-1)) forward *)
 (* steps (C13.block_opt).                                                  *)
 (***************************************************************************)
-EXTENDS SchedAPI, GWForm, GenBinomialCore
+EXTENDS GenTwoLevelCore, GWForm
 
 CONSTANTS P, B, BinSt, K, MaxFwd, MaxPass     \* period, binomial_snapshots, their storage; bounds
 
@@ -29,55 +29,9 @@ tvars2 == <<evars, avars, g, bad, lastN0, consistent, pf, pick>>
 
 Ex == ExTab(P + 1)
 Choices(len, u) == IF <<len, u>> \in DOMAIN pick THEN {pick[<<len, u>>]} ELSE OptOf(Ex, len, u)
-GInit == [pc |-> "F", n |-> 0, r |-> 0, m |-> Unknown, stack |-> <<>>, n0s |-> 0]
-
-TStep(e, gg) == [e |-> e, gs |-> gg]
-
-(* the reverse loop inside one block; gg.stack is never empty while the block is unfinished *)
-LoopSucc(gg) ==
-  LET top == gg.stack[Len(gg.stack)]
-      pop == SubSeq(gg.stack, 1, Len(gg.stack) - 1) IN
-  IF top = gg.m - gg.r - 1
-    THEN {TStep(IF top = gg.n0s THEN Cpy(top, DISK, WORK) ELSE Mov(top, BinSt, WORK),
-                [gg EXCEPT !.n = top, !.stack = pop, !.pc = "deps"])}
-    ELSE {TStep(IF top = gg.n0s THEN Cpy(top, DISK, WORK) ELSE Cpy(top, BinSt, WORK),
-                [gg EXCEPT !.n = top, !.pc = "adv1"])}
-
-(* top of the reverse phase: next block, or the end of this adjoint calculation *)
-BlockSucc(gg) ==
-  IF gg.r = gg.m THEN {TStep(EndR, [gg EXCEPT !.r = 0, !.pc = "blk"])}
-  ELSE LET nn == gg.m - gg.r - 1
-           b0 == (nn \div P) * P IN
-       LoopSucc([gg EXCEPT !.stack = <<b0>>, !.n0s = b0])
-
-Succ ==
-  LET free == B + 1 - Len(g.stack)
-      left == g.m - g.r - g.n IN
-  CASE g.pc = "F" ->
-         IF g.m = Unknown
-           THEN {TStep(Fwd(g.n, g.n + P, TRUE, FALSE, DISK), [g EXCEPT !.n = g.n + P])}
-           ELSE {TStep(EndF, [g EXCEPT !.pc = "blk"])}
-    [] g.pc = "blk" -> BlockSucc(g)
-    [] g.pc = "loop" -> IF g.r = g.m - g.n0s THEN BlockSucc(g) ELSE LoopSucc(g)
-    [] g.pc = "adv1" ->
-         {TStep(Fwd(g.n, g.n + mm, FALSE, FALSE, WORK),
-                [g EXCEPT !.n = g.n + mm, !.pc = IF g.n + mm < g.m - g.r - 1 THEN "advk" ELSE "deps"])
-            : mm \in Choices(left, free + 1)}
-    [] g.pc = "advk" ->
-         {TStep(Fwd(g.n, g.n + mm, TRUE, FALSE, BinSt),
-                [g EXCEPT !.n = g.n + mm, !.stack = Append(g.stack, g.n),
-                          !.pc = IF g.n + mm < g.m - g.r - 1 THEN "advk" ELSE "deps"])
-            : mm \in Choices(left, free)}
-    [] g.pc = "deps" -> {TStep(Fwd(g.n, g.n + 1, FALSE, TRUE, WORK), [g EXCEPT !.n = g.n + 1, !.pc = "rev"])}
-    [] g.pc = "rev" -> {TStep(Rev(g.n, g.n - 1, TRUE), [g EXCEPT !.r = g.r + 1, !.pc = "loop"])}
-    [] OTHER -> {}
-
-(* finalize(k) as the base class does it *)
-Fin(k) ==
-  IF k < 1 THEN [o |-> FValue, gs |-> g]
-  ELSE IF g.m = Unknown
-         THEN (IF g.n >= k THEN [o |-> FOk, gs |-> [g EXCEPT !.n = k, !.m = k]] ELSE [o |-> FRuntime, gs |-> g])
-  ELSE IF g.n # k \/ g.m # k THEN [o |-> FRuntime, gs |-> g] ELSE [o |-> FOk, gs |-> g]
+GInit == TLInit
+Succ == TLSucc(g, P, B, BinSt, Choices)
+Fin(k) == TLFin(g, k)
 
 Obs(gg, run) == [n |-> gg.n, r |-> gg.r, m |-> gg.m, x |-> 0, g |-> IF run THEN 1 ELSE 0,
                  u |-> <<IF BinSt = RAM THEN 1 ELSE 0, 1, 0, 0>>]
@@ -105,8 +59,7 @@ GNext ==
               ELSE IF st.e.k = KF /\ phase = "rev" THEN pf + (st.e.b - st.e.a) ELSE pf)
     /\ lastN0' = (IF st.e.k = KF THEN st.e.a ELSE lastN0)
     /\ pick' = (IF g.pc \in {"adv1", "advk"}
-                 THEN LET key == <<g.m - g.r - g.n, B + 1 - Len(g.stack) + (IF g.pc = "adv1" THEN 1 ELSE 0)>> IN
-                      (key :> (st.e.b - st.e.a)) @@ pick
+                 THEN (TLKey(g, B) :> (st.e.b - st.e.a)) @@ pick
                  ELSE pick)
     /\ UNCHANGED consistent
 
